@@ -229,14 +229,15 @@ func graphFacts() []string {
 // ---------------------------------------------------------------- generator
 
 type gen struct {
-	c       *hx.Ctx
-	r       *hx.Rng
-	ti      *typeInfo
-	nK      int
-	nH      int
-	nP      int
-	markers []string // ids issued in this history: K1, H2, P3 …
-	size    int      // 0 small … 2 large
+	c         *hx.Ctx
+	r         *hx.Rng
+	ti        *typeInfo
+	nK        int
+	nH        int
+	nP        int
+	markers   []string // ids issued in this history: K1, H2, P3 …
+	size      int      // 0 small … 2 large
+	plainKeys bool     // no JSON escapes in generated hole texts
 }
 
 func (g *gen) marker(class string) string {
@@ -260,6 +261,100 @@ func (g *gen) marker(class string) string {
 var pkSpellings = []string{"private_key", "private_key", "private_key", "PRIVATE_KEY", "Private_Key", "private_Key", "private_Key", "PRIVATE_KEY"}
 var decoyKeys = []string{"private_key_file", "privatekey", "key", "cert_chain", "private_key ", "private-key", "pk"}
 
+// decoy key literals (JSON text, with quotes) that only LOOK like an escaped spelling of the key: an escaped
+// backslash (decodes to 16 characters: private, backslash, u005f, key), an escape of a different character,
+// escapes that complete a longer key, a lone surrogate escape (decodes to U+FFFD).
+var decoyKeyLits = []string{"\"private\\\\u005fkey\"", "\"private\\u002dkey\"", "\"private\\u005fkey\\u005ffile\"",
+	"\"\\u0070rivatekey\"", "\"private_key\\ud800\"", "\"private\\u005f\\u005fkey\""}
+
+// uEsc writes the backslash-u escape of a BMP character with hex digits of random case.
+func uEsc(r *hx.Rng, c rune) string {
+	h := fmt.Sprintf("%04x", c)
+	var sb strings.Builder
+	sb.WriteString(`\u`)
+	for i := 0; i < 4; i++ {
+		if r.Bool() {
+			sb.WriteString(strings.ToUpper(h[i : i+1]))
+		} else {
+			sb.WriteByte(h[i])
+		}
+	}
+	return sb.String()
+}
+
+// keyLit returns the JSON text (with quotes) of an object key that DECODES and folds to private_key: plain and
+// case variants (incl. the KELVIN SIGN, which Unicode simple folding, hence encoding/json and strings.EqualFold,
+// identifies with k), each single character escaped, all characters escaped, mixed case with escapes, the KELVIN
+// SIGN escaped. JSON escapes survive only in json.RawMessage holes; a decoded map holds the decoded key.
+func (g *gen) keyLit() string {
+	r := g.r
+	base := []rune(r.PickS(pkSpellings))
+	mode := r.Intn(12)
+	if g.plainKeys {
+		mode = 0
+	}
+	var sb strings.Builder
+	sb.WriteByte('"')
+	switch {
+	case mode < 4:
+		g.c.Count("key.spelling=plain-or-case")
+		sb.WriteString(string(base))
+	case mode < 7:
+		i := r.Intn(len(base))
+		g.c.Count(fmt.Sprintf("key.spelling=one-escaped@%d", i))
+		for j, c := range base {
+			if j == i {
+				sb.WriteString(uEsc(r, c))
+			} else {
+				sb.WriteRune(c)
+			}
+		}
+	case mode < 8:
+		g.c.Count("key.spelling=all-escaped")
+		for _, c := range base {
+			sb.WriteString(uEsc(r, c))
+		}
+	case mode < 10:
+		g.c.Count("key.spelling=mixed-case-and-escapes")
+		for _, c := range base {
+			if c < 128 {
+				if r.Bool() {
+					c = []rune(strings.ToUpper(string(c)))[0]
+				} else {
+					c = []rune(strings.ToLower(string(c)))[0]
+				}
+			}
+			if r.Chance(40) {
+				sb.WriteString(uEsc(r, c))
+			} else {
+				sb.WriteRune(c)
+			}
+		}
+	default:
+		g.c.Count("key.spelling=kelvin-escaped")
+		for _, c := range base {
+			if c == 'k' || c == 'K' || c == 0x212A {
+				sb.WriteString(uEsc(r, 0x212A))
+			} else {
+				sb.WriteRune(c)
+			}
+		}
+	}
+	sb.WriteByte('"')
+	return sb.String()
+}
+
+// valLit returns the JSON text of a string value; now and then one character is spelled as an escape (the consumer
+// still reads the same value, a dump that leaked it would show the escaped spelling).
+func (g *gen) valLit(s string) string {
+	if s == "" || g.plainKeys || !g.r.Chance(12) {
+		return `"` + s + `"`
+	}
+	g.c.Count("hole.value=escaped-char")
+	i := g.r.Intn(len(s))
+	return `"` + s[:i] + uEsc(g.r, rune(s[i])) + s[i+1:] + `"`
+}
+
 // tlsJSON builds the JSON text of an object that embeds TLS contexts with secrets of class `class`
 // (H = must be redacted, P = plain hole: survives) in varied shapes, plus decoys of class P.
 func (g *gen) tlsJSON(class string) string {
@@ -273,15 +368,20 @@ func (g *gen) tlsJSON(class string) string {
 			g.c.Count("hole.key=placeholder")
 			return `"` + placeholder + `"`
 		}
-		return `"` + g.marker(class) + `"`
+		return g.valLit(g.marker(class))
 	}
 	ctx := func() string {
-		parts := []string{`"status":true`, fmt.Sprintf(`%q:%s`, r.PickS(pkSpellings), keyVal())}
+		parts := []string{`"status":true`, g.keyLit() + ":" + keyVal()}
 		if r.Chance(40) {
 			parts = append(parts, `"cert_chain":"cert"`)
 		}
 		if r.Chance(20) { // decoy: a key that does not fold to private_key
-			parts = append(parts, fmt.Sprintf(`%q:"%s"`, r.PickS(decoyKeys), g.marker("P")))
+			if r.Chance(40) && !g.plainKeys {
+				g.c.Count("key.decoy=escape-lookalike")
+				parts = append(parts, r.PickS(decoyKeyLits)+`:"`+g.marker("P")+`"`)
+			} else {
+				parts = append(parts, fmt.Sprintf(`%q:"%s"`, r.PickS(decoyKeys), g.marker("P")))
+			}
 		}
 		return "{" + strings.Join(parts, ",") + "}"
 	}
@@ -298,11 +398,11 @@ func (g *gen) tlsJSON(class string) string {
 		parts = append(parts, `"tls_context_set":[`+ctx()+`,`+ctx()+`]`)
 	case 3:
 		g.c.Count("hole.shape=top-level-key")
-		parts = append(parts, fmt.Sprintf(`%q:%s`, r.PickS(pkSpellings), keyVal()))
+		parts = append(parts, g.keyLit()+":"+keyVal())
 	case 4:
 		g.c.Count("hole.shape=non-string-under-key")
 		// a non-string under the key is not a TLS key: arrays / numbers / objects stay, but a key nested inside is still found
-		parts = append(parts, fmt.Sprintf(`"private_key":["%s",7,{"private_key":%s}]`, g.marker("P"), keyVal()))
+		parts = append(parts, fmt.Sprintf(`%s:["%s",7,{%s:%s}]`, g.keyLit(), g.marker("P"), g.keyLit(), keyVal()))
 	case 5:
 		g.c.Count("hole.shape=no-key")
 		parts = append(parts, `"enable":false,"n":12345678901234567890`)
@@ -321,7 +421,8 @@ func holeClass(owner reflect.Type, field string) string {
 	case "Filter.Config", "ExtendConfig.Config":
 		return "H"
 	case "VirtualHost.PerFilterConfig", "RouterConfig.PerFilterConfig", "HealthCheckConfig.SessionConfig",
-		"TLSConfig.ExtendVerify", "TracingConfig.Config", "ThirdPartCodec.Config":
+		"TLSConfig.ExtendVerify", "TracingConfig.Config", "ThirdPartCodec.Config",
+		"MOSNConfig.RawDynamicResources", "MOSNConfig.RawStaticResources", "MOSNConfig.Node":
 		return "P"
 	}
 	return ""
@@ -545,10 +646,52 @@ func markerLess(a, b string) bool {
 	return x < y
 }
 
+// bodyStrings returns every string value of the body as its reader decodes it (a value spelled with JSON escapes
+// inside a raw hole is found under its decoded form; a member shadowed by a later duplicate is not a value).
+// ok = the body is a JSON document.
+func bodyStrings(body string) (out []string, ok bool) {
+	dec := json.NewDecoder(strings.NewReader(body))
+	dec.UseNumber()
+	var v interface{}
+	if err := dec.Decode(&v); err != nil {
+		return nil, false
+	}
+	var walk func(x interface{})
+	walk = func(x interface{}) {
+		switch t := x.(type) {
+		case string:
+			out = append(out, t)
+		case []interface{}:
+			for _, e := range t {
+				walk(e)
+			}
+		case map[string]interface{}:
+			for _, e := range t {
+				walk(e)
+			}
+		}
+	}
+	walk(v)
+	return out, true
+}
+
 func (g *gen) scan(status int, body string) string {
 	var found []string
+	strs, isJSON := bodyStrings(body)
 	for _, id := range g.markers {
-		if strings.Contains(body, "zq"+id+"qz") {
+		m := "zq" + id + "qz"
+		hit := false
+		if isJSON {
+			for _, s := range strs {
+				if strings.Contains(s, m) {
+					hit = true
+					break
+				}
+			}
+		} else {
+			hit = strings.Contains(body, m)
+		}
+		if hit {
 			found = append(found, id)
 		}
 	}
@@ -715,5 +858,13 @@ func Run(c *hx.Ctx) {
 			size = 0
 		}
 		history(c, c.Rng.Fork(), ti, size)
+	}
+	// one raw JSON text per case, through every position a hole content can take (raw.go)
+	for _, t := range fixedRawTexts() {
+		rawCaseOf(c, c.Rng.Fork(), false, t)
+	}
+	m := c.N(700, 20000)
+	for i := 0; i < m; i++ {
+		rawCase(c, c.Rng.Fork(), i%7 == 3)
 	}
 }
